@@ -213,6 +213,21 @@ def run_case(c, stats):
             call(m.accepts, w)
         call(m.minimize)
     call(fa.copy)
+    if len(c["trans"]) % 4 == 1 and c["trans"]:
+        # a bystander with the same state and symbol values: built, queried, stripped of its transitions - nothing
+        # changes for this automaton
+        other = gfa.build(c)
+        for w in words[:6]:
+            call(other.accepts, w)
+        for (p_, a_, q_) in list(other):
+            call(other.remove_transition, p_, a_, q_)
+        for s_ in list(other.final_states):
+            call(other.remove_final_state, s_)
+        stats.cls("bystander_edited")
+        for w in words[:20]:
+            call(fa.accepts, w)
+        call(fa.to_deterministic)
+        call(fa.minimize)
     if len(c["trans"]) % 3 == 0 and kind != "dfa":
         # what a conversion returns belongs to the caller: every result is edited (all states final, a loop on each
         # start state) and the conversions are asked again - of this automaton and of a fresh equal one
